@@ -78,7 +78,15 @@ pub(crate) fn conflict_check(model: &crate::model::Model, failed: &[crate::exec:
 	for f in failed {
 		match f.class.as_str() {
 			"Conflict" => {
-				let cause = model.commits.iter().any(|c| c.txn != f.txn && c.last_seq > f.start_seq && c.writes.iter().any(|w| f.keys.contains(&w.key)));
+				// a commit that itself FAILED (I/O error after its keys were stamped) is a cause only
+				// while its failure had not yet been reported when this commit was invoked: after
+				// that its stamps must be gone
+				let cause = model.commits.iter().any(|c| {
+					c.txn != f.txn
+						&& c.last_seq > f.start_seq
+						&& c.writes.iter().any(|w| f.keys.contains(&w.key))
+						&& (c.status != Status::Failed || f.op_at_invoke == 0 || c.op_at_ack.map(|p| p > f.op_at_invoke).unwrap_or(true))
+				});
 				if !cause {
 					return Some(Violation::new(
 						"spurious_conflict",
@@ -87,7 +95,7 @@ pub(crate) fn conflict_check(model: &crate::model::Model, failed: &[crate::exec:
 				}
 			}
 			"Retry" => {
-				if plan.opts.oracle_gc.is_none() && !plan.steps.iter().any(|s| matches!(s, Step::Restore)) {
+				if plan.opts.oracle_gc.is_none() && !plan.steps.iter().any(|s| matches!(s, Step::Restore | Step::RestoreB)) {
 					return Some(Violation::new("spurious_retry", format!("txn{} got TransactionRetry although neither a restore nor an oracle GC can have happened", f.txn)));
 				}
 			}
@@ -779,6 +787,12 @@ fn gen_concurrent(case_seed: u64, tier: Tier, id: &str) -> Plan {
 		p.windows.push(Window { label: "apply.post_rotate".into(), nth: rng.range(1, 3) as u32, steps: vec![Step::Probe] });
 	}
 	if id == "C05" {
+		// in the middle of a batch's memtable insert: readers see none of it yet; and (tripwire)
+		// the memtable cannot be rotated away under the insert - in the unchanged code the
+		// active-memtable lock is held there, so the rotate+flush step does nothing
+		for _ in 0..rng.range(1, 4) {
+			p.windows.push(Window { label: "memtable.add.entry".into(), nth: rng.range(1, 60) as u32, steps: vec![Step::Probe, Step::RotateFlushIfUnlocked, Step::Probe] });
+		}
 		// tripwire inside rotate_memtable: only ever reached if the rotated memtable is, for a
 		// moment, in neither the active slot nor the immutable list with no lock held
 		for nth in 1..=3 {
@@ -1155,6 +1169,36 @@ fn gen_c14(case_seed: u64, _case: u64, tier: Tier) -> Plan {
 		steps.push(Step::Probe);
 		steps.push(Step::Reopen);
 		steps.push(Step::Probe);
+	}
+	if rng.chance(1, 3) {
+		// two checkpoints, restored older first and then the newer one: the second restore
+		// moves the store FORWARD in table ids / WAL numbering; commits made after it must
+		// survive a reopen that has only the commit log to recover them from
+		let mut s2 = Vec::new();
+		let na = rng.range(1, 6);
+		phase(&mut rng, &mut s2, &mut tags, na);
+		s2.push(Step::Checkpoint);
+		let nb = rng.range(2, 8);
+		for _ in 0..nb {
+			write_txn(&mut rng, 0, nkeys, &mut tags, 3, 10, budget, &mut s2);
+			s2.push(if rng.chance(1, 2) { Step::Rotate } else { Step::FlushAll });
+		}
+		s2.push(Step::CheckpointB);
+		let nc = rng.range(0, 4);
+		phase(&mut rng, &mut s2, &mut tags, nc);
+		s2.push(Step::Restore);
+		s2.push(Step::Probe);
+		let nd = rng.range(0, 3);
+		phase(&mut rng, &mut s2, &mut tags, nd);
+		s2.push(Step::RestoreB);
+		s2.push(Step::Probe);
+		for _ in 0..rng.range(1, 4) {
+			write_txn(&mut rng, 0, nkeys, &mut tags, 3, 100, budget, &mut s2);
+		}
+		s2.push(Step::Probe);
+		s2.push(Step::Reopen);
+		s2.push(Step::Probe);
+		steps = s2;
 	}
 	if opts.versioning {
 		// "every subsequent read": with versioning on, the version history is a read too.
